@@ -26,6 +26,12 @@ type Standin struct {
 }
 
 var propStandins = map[string][]Standin{
+	"C07": {{
+		Name: "merge-roundtrip", Pkg: "internal/index", TestFile: "roundtrip_standin_test.go", TestName: "TestC01Standin", OutEnv: "C01_OUT",
+		EnvQuick: []string{"C01_MERGE=1", "C01_ROUNDS=60"}, EnvThorough: []string{"C01_MERGE=1", "C01_ROUNDS=600"},
+		Bound:   "merging as a whole (newest-wins skipping, payload and packet copy, host remapping, time re-basing, lookups of the merged files; only the re-basing arithmetic and the manager's splice are under contract): 60 (quick) / 600 (thorough) seeded groups of 2-4 index files with 1-6 streams each over 10 stream ids, later files holding newer versions of some ids, files written with reference times up to 1000 h apart, stream shapes as in the C01 round-trip stand-in (long packet lists, payload around 64 KiB, wrapping relative times); after index.Merge the merged files together hold exactly one record per visible id and return the newest version of every stream exactly as it was written (hosts, ports, protocol, byte counts, first/last time, every packet's capture source/direction/time, payload per direction in order with its time stamps)",
+		Timeout: 20 * time.Minute,
+	}},
 	"C01": {{
 		Name: "roundtrip", Pkg: "internal/index", TestFile: "roundtrip_standin_test.go", TestName: "TestC01Standin", OutEnv: "C01_OUT",
 		EnvQuick: []string{"C01_ROUNDS=60", "C01_HOSTS=30000"}, EnvThorough: []string{"C01_ROUNDS=600", "C01_HOSTS=70000"},
